@@ -1,23 +1,16 @@
-(* C19 — The DTLCP handshake survives datagram loss, duplication and reordering. *)
+(* C19 — The DTLCP handshake survives datagram loss, duplication and reordering.
+   Property theorems only (model: Model/DSim.v; proofs: Proofs/DSimProofs.v). *)
 From V Require Import Model.DSim.
-
-Definition good_run (c : cfg) (fs : list fault) : bool :=
-  let '(n, finished) := simulate c fs in
-  let t := rev (trace n) in
-  finished && complete (cl n) && complete (sv n) && got Cl t && got Sv t.
-
-Definition all_cfgs : list cfg :=
-  [mkCfg false false false; mkCfg false false true; mkCfg false true false; mkCfg false true true;
-   mkCfg true false false; mkCfg true false true; mkCfg true true false; mkCfg true true true].
 
 Lemma all_cfgs_complete : forall c, In c all_cfgs.
 Proof. intros [[] [] []]; simpl; tauto. Qed.
 
-(* with no fault the handshake completes, application data flows both ways *)
-Theorem C19_fault_free_completes : forall c, good_run c [] = true.
+(* with no fault at all both endpoints complete, application data flows in both directions, and
+   no deadline expires before both have completed *)
+Theorem C19_fault_free : forall c, good_run c [] = true.
 Proof.
   intros c. pose proof (all_cfgs_complete c) as H.
   assert (A : forallb (fun c => good_run c []) all_cfgs = true) by (vm_compute; reflexivity).
   rewrite forallb_forall in A. exact (A c H).
 Qed.
-Print Assumptions C19_fault_free_completes.
+Print Assumptions C19_fault_free.
